@@ -167,6 +167,8 @@ theorem stem_toList (m : List Char) (h : ∃ c ∈ m, c ≠ '.') :
     obtain ⟨c, hc, hne⟩ := h; exact ⟨c, hc, by simpa using hne⟩
   obtain ⟨h1, h2⟩ := takeWhile_append_of_exists (p := (· == '.')) m ['.', 'j', 's', 'o', 'n'] h'
   unfold stem
+  -- the listed name is cut as `os.path.splitext` cuts it: the atom read from `iter_recording_ids` (F14)
+  rw [if_pos (by rfl : PlaybackModel.Source.fileStemSplitext = true)]
   simp only [String.toList_ofList, h1, h2]
   have hc : (List.dropWhile (· == '.') m ++ ['.', 'j', 's', 'o', 'n']).contains '.' = true := by simp
   rw [if_pos hc, dropExt_json, String.toList_ofList, List.takeWhile_append_dropWhile]
